@@ -35,6 +35,17 @@ pub open spec fn ordered(ts: Seq<Token>) -> bool {
 pub open spec fn errors_inside(t: Token) -> bool {
     forall|k: int| 0 <= k < t.errors@.len() ==> t.range.start <= (#[trigger] t.errors@[k]).0.start <= t.errors@[k].0.end
 }
+#[verifier::opaque]
+pub open spec fn all_errors_inside(ts: Seq<Token>) -> bool { forall|i: int| 0 <= i < ts.len() ==> errors_inside(#[trigger] ts[i]) }
+pub proof fn lemma_errors_inside_at(ts: Seq<Token>, i: int)
+    requires all_errors_inside(ts), 0 <= i < ts.len(),
+    ensures errors_inside(ts[i]),
+{ reveal(all_errors_inside); }
+/// one pair of an ordered sequence
+pub proof fn lemma_ordered_at(ts: Seq<Token>, i: int, j: int)
+    requires ordered(ts), 0 <= i < j < ts.len(),
+    ensures ts[i].range.end <= ts[j].range.start, ts[i].range.end < ts[j].range.end, ts[i].range.start < ts[j].range.start, ts[i].range.start <= ts[i].range.end, ts[j].range.start <= ts[j].range.end,
+{ reveal(ordered); }
 /// "how many characters behind its end a token's identity can depend on" — the same table as in unit `window`
 pub open spec fn needed_la(t: TokenType) -> int {
     match t {
@@ -135,20 +146,21 @@ pub open spec fn sizes_fit(ts: Seq<Token>, change: TextChange) -> bool {
     &&& forall|i: int| 0 <= i < ts.len() ==> (#[trigger] ts[i]).range.end + byte_len(change.text@) <= isize::MAX
     &&& forall|i: int, k: int| 0 <= i < ts.len() && 0 <= k < ts[i].errors@.len() ==> (#[trigger] ts[i].errors@[k]).0.end + byte_len(change.text@) <= isize::MAX
 }
+pub open spec fn split_at_first_false(ts: Seq<Token>, g: spec_fn(Token) -> bool, h: spec_fn(Token) -> bool, n: nat) -> bool {
+    let k = filter_tokens(ts, g, n).len();
+    &&& k <= n
+    &&& filter_tokens(ts, g, n) =~= ts.subrange(0, k as int)
+    &&& filter_tokens(ts, h, n) =~= ts.subrange(k as int, n as int)
+    &&& forall|i: int| 0 <= i < k ==> g(ts[i])
+    &&& forall|i: int| k <= i < n ==> !g(ts[i])
+}
 /// a predicate that, once false, stays false along the sequence splits it into a prefix and the rest
 pub proof fn lemma_partition_prefix(ts: Seq<Token>, g: spec_fn(Token) -> bool, h: spec_fn(Token) -> bool, n: nat)
     requires
         n <= ts.len(),
         forall|t: Token| #[trigger] h(t) == !g(t),
         forall|i: int, j: int| 0 <= i < j < ts.len() && g(ts[j]) ==> g(ts[i]),
-    ensures ({
-        let k = filter_tokens(ts, g, n).len();
-        &&& k <= n
-        &&& filter_tokens(ts, g, n) =~= ts.subrange(0, k as int)
-        &&& filter_tokens(ts, h, n) =~= ts.subrange(k as int, n as int)
-        &&& forall|i: int| 0 <= i < k ==> g(ts[i])
-        &&& forall|i: int| k <= i < n ==> !g(ts[i])
-    }), //# lemma_partition_prefix
+    ensures split_at_first_false(ts, g, h, n), //# lemma_partition_prefix
     decreases n
 {
     if n > 0 {
@@ -193,6 +205,10 @@ pub proof fn lemma_fits(olds: Seq<Token>, change: TextChange, i: int)
     reveal(sizes_fit);
     assert forall|k: int| 0 <= k < olds[i].errors@.len() implies range_fits_i((#[trigger] olds[i].errors@[k]).0, delta(change)) by { }
 }
+pub proof fn lemma_sizes(olds: Seq<Token>, change: TextChange, i: int)
+    requires sizes_fit(olds, change), 0 <= i < olds.len(),
+    ensures byte_len(change.text@) <= isize::MAX, change.range.end <= isize::MAX, olds[i].range.end < usize::MAX,
+{ reveal(sizes_fit); }
 pub proof fn lemma_out_of_reach(t: Token, index: usize)
     requires !affected(t, index),
     ensures t.range.end + needed_la(t.token_type) <= index, //# lemma_out_of_reach
@@ -231,7 +247,7 @@ pub proof fn lemma_window(olds: Seq<Token>, k1: int, rl: int, reusable_new: Seq<
 //@ sig
     requires
         tokens@.len() > 0, tokens@.last().token_type is Eof,
-        ordered(tokens@), forall|i: int| 0 <= i < tokens@.len() ==> errors_inside(#[trigger] tokens@[i]),
+        ordered(tokens@), all_errors_inside(tokens@),
         change.range.start <= change.range.end <= tokens@.last().range.start,
         sizes_fit(tokens@, *change),
     ensures
@@ -269,8 +285,9 @@ pub proof fn lemma_window(olds: Seq<Token>, k1: int, rl: int, reusable_new: Seq<
 //@ before "let offset: isize = {"
 let ghost olds = tokens@;
     proof {
+        lemma_errors_inside_at(olds, olds.len() - 1);
         lemma_fits(olds, *change, olds.len() - 1);
-        reveal(sizes_fit);
+        lemma_sizes(olds, *change, olds.len() - 1);
         assert forall|t: TokenType| needed_la(t) <= #[trigger] la_of(t) <= 1 by { lemma_la_bounds(t); }
     }
     
@@ -283,7 +300,7 @@ let ghost body = tokens@;
     let ghost g1 = |t_: Token| { let token = &t_; $CLOSURE(|token| 0/4) };
     proof {
         assert(body =~= olds.drop_last());
-        assert forall|i: int| 0 <= i < body.len() implies (#[trigger] body[i]).range.end < usize::MAX by { assert(body[i] == olds[i]); reveal(sizes_fit); }
+        assert forall|i: int| 0 <= i < body.len() implies (#[trigger] body[i]).range.end < usize::MAX by { assert(body[i] == olds[i]); lemma_sizes(olds, *change, i); }
     }
     
 //@ before "let (_, reusable_tokens)"
@@ -295,7 +312,7 @@ let ghost aff = tokens@;
         assert(k1 <= body.len() && unaffected_head@ == olds.subrange(0, k1 as int) && aff == olds.subrange(k1 as int, olds.len() - 1)
             && (forall|i: int| 0 <= i < k1 ==> g1(#[trigger] olds[i]))) by {
             assert forall|i: int, j: int| 0 <= i < j < body.len() && g1(body[j]) implies g1(body[i]) by {
-                reveal(ordered);
+                lemma_ordered_at(olds, i, j);
                 assert(body[i] == olds[i] && body[j] == olds[j]);
             }
             lemma_partition_prefix(body, g1, |t: Token| !g1(t), body.len());
@@ -314,7 +331,7 @@ let ghost reusable_old = reusable_tokens@;
         assert(0 <= k2 && reusable_old == olds.subrange(k1 + k2, olds.len() - 1)
             && (forall|i: int| k1 + k2 <= i < olds.len() - 1 ==> !g2(#[trigger] olds[i]))) by {
             assert forall|i: int, j: int| 0 <= i < j < aff.len() && g2(aff[j]) implies g2(aff[i]) by {
-                reveal(ordered);
+                lemma_ordered_at(olds, k1 + i, k1 + j);
                 assert(aff[i] == olds[k1 + i] && aff[j] == olds[k1 + j]);
             }
             lemma_partition_prefix(aff, g2, |t: Token| !g2(t), aff.len());
@@ -327,6 +344,7 @@ let ghost reusable_old = reusable_tokens@;
         assert forall|i: int| 0 <= i < reusable_old.len() implies range_fits_i((#[trigger] reusable_old[i]).range, offset as int) && errs_fit_i(reusable_old[i].errors@, offset as int) by {
             assert(reusable_old[i] == olds[k1 + k2 + i]);
             assert(!g2(olds[k1 + k2 + i]));
+            lemma_errors_inside_at(olds, k1 + k2 + i);
             lemma_fits(olds, *change, k1 + k2 + i);
         }
     }
